@@ -195,6 +195,20 @@ Record delm_res (V : Type) := DelmRes {
   dr_notes : list (list str * list str) }.
 Arguments DelmRes {V}. Arguments dr_node {V}. Arguments dr_matches {V}. Arguments dr_notes {V}.
 
+(* the notes of the `?` loop of ndelete_matches (490-503): after each child, node.trim() and,
+   if it removed something, (path, remaining children); [done] = processed children that
+   survived, the rest of [rs] are still unprocessed *)
+Fixpoint wild_notes {V} (trav : list str) (done : list (str * node V))
+         (rs : list (str * node V * delm_res V)) : list (list str * list str) :=
+  match rs with
+  | [] => []
+  | (k, _, r) :: rs' =>
+      let all := done ++ (k, dr_node r) :: map (fun x => (fst (fst x), snd (fst x))) rs' in
+      dr_notes r ++
+      (if any_obsolete all then [(trav, names (trim_kids all))] else []) ++
+      wild_notes trav (trim_kids (done ++ [(k, dr_node r)])) rs'
+  end.
+
 (* ndelete_matches / ndelete_child_matches (451-555) *)
 Fixpoint delm {V} (n : node V) (trav : list str) (pat : list kseg) {struct n} : delm_res V :=
   match n with
@@ -204,38 +218,30 @@ Fixpoint delm {V} (n : node V) (trav : list str) (pat : list kseg) {struct n} : 
       | Multi :: [] => DelmRes (Node None []) (collect n trav [Multi]) (multi_notes n trav)
       | Multi :: _ => DelmRes n [] []
       | Wild :: tail =>
-          (* for id in node.ls_owned(): child recursion, then node.trim() and its note *)
-          let r :=
-            (fix go (done : list (str * node V)) (todo : list (str * node V))
-               : list (str * node V) * list (list str * V) * list (list str * list str) :=
-               match todo with
-               | [] => (done, [], [])
-               | (k, c) :: todo' =>
-                   let rc := delm c (trav ++ [k]) tail in
-                   let all := done ++ (k, dr_node rc) :: todo' in
-                   let note := if any_obsolete all then [(trav, names (trim_kids all))] else [] in
-                   let '(kids, ms, ns) := go (trim_kids (done ++ [(k, dr_node rc)])) todo' in
-                   (kids, dr_matches rc ++ ms, dr_notes rc ++ note ++ ns)
-               end) [] cs in
-          let '(kids, ms, ns) := r in
-          DelmRes (Node v (trim_kids kids)) ms ns
+          (* for id in node.ls_owned(): child recursion, then node.trim() *)
+          let rs :=
+            (fix go (cs : list (str * node V)) : list (str * node V * delm_res V) :=
+               match cs with
+               | [] => []
+               | (k, c) :: cs' => (k, c, delm c (trav ++ [k]) tail) :: go cs'
+               end) cs in
+          DelmRes (Node v (trim_kids (map (fun x => (fst (fst x), dr_node (snd x))) rs)))
+                  (flat_map (fun x => dr_matches (snd x)) rs)
+                  (wild_notes trav [] rs)
       | Reg s :: tail =>
           let r :=
-            (fix go (cs : list (str * node V))
-               : list (str * node V) * list (list str * V) * list (list str * list str) * bool :=
+            (fix go (cs : list (str * node V)) : option (delm_res V) :=
                match cs with
-               | [] => ([], [], [], false)
-               | (k, c) :: cs' =>
-                   if str_eqb s k then
-                     let rc := delm c (trav ++ [s]) tail in
-                     ((k, dr_node rc) :: cs', dr_matches rc, dr_notes rc, true)
-                   else
-                     let '(kids, ms, ns, found) := go cs' in
-                     ((k, c) :: kids, ms, ns, found)
+               | [] => None
+               | (k, c) :: cs' => if str_eqb s k then Some (delm c (trav ++ [s]) tail) else go cs'
                end) cs in
-          let '(kids, ms, ns, found) := r in
-          let note := if found && any_obsolete kids then [(trav, names (trim_kids kids))] else [] in
-          DelmRes (Node v (trim_kids kids)) ms (ns ++ note)
+          match r with
+          | Some rc =>
+              let kids := mod_child s (fun _ => dr_node rc) cs in
+              DelmRes (Node v (trim_kids kids)) (dr_matches rc)
+                      (dr_notes rc ++ (if any_obsolete kids then [(trav, names (trim_kids kids))] else []))
+          | None => DelmRes (Node v (trim_kids cs)) [] []
+          end
       end
   end.
 
